@@ -851,6 +851,15 @@ def i_descriptors(c):
         k1, k2 = r.sample(["'a'", "'b'", "1", "2"], 2)
         items = [f"{k1}: {c.t()}", f"{k2}: {r.choice(['5', c.t()])}", f"{k1}: {r.choice(['6', c.t()])}"]
         return [f"{d} = {{{', '.join(items)}}}", f"print(sorted({d}.items(), key=str))"]
+    if r.random() < 0.3:  # the first argument is used only through super() without arguments
+        B, K, m = c.name("Base").capitalize(), c.name("Child").capitalize(), c.name("describe")
+        form = r.randrange(4)
+        child = {0: [f"def {m}(self):"] + ind([f"return 'child+' + super().{m}()"]),
+                 1: ["@classmethod", f"def {m}(cls):"] + ind([f"return 'child+' + super().{m}()"]),
+                 2: [f"def {m}(self):"] + ind([f"return [super().{m}() for _ in range(1)] and 'child+' + super({K}, self).{m}()"]),
+                 3: ["def __repr__(self):"] + ind(["return 'child:' + super().__repr__()[:1]"]) + ["", f"def {m}(self):"] + ind(["return repr(self)"])}[form]
+        base = (["@classmethod"] if form == 1 else []) + [f"def {m}({'cls' if form == 1 else 'self'}):"] + ind(["return 'base'"])
+        return [f"class {B}:"] + ind(base) + ["", "", f"class {K}({B}):"] + ind(child) + ["", "", f"print({K}().{m}())"]
     K, p = c.name("Thing").capitalize(), c.name("prop")
     deco = r.choice(["@property", "@property", "@functools.cached_property"])
     body = [deco, f"def {p}(self):"] + ind([f"return {r.randint(1, 9)}"])
